@@ -28,6 +28,12 @@ CLAIMS = {
          "Coq proof of totality as a corollary of model = spec (error-class lemmas for every operator; except clauses translated from source) + malformed-document correspondence stream"),
  "C15": ("Theorems C15_rule/schema_model_is_spec (casts included), and on the specification: C15_cast_applied (a castable selected node holds its cast value in the judged copy), C15_uncastable_left, C15_everywhere_else (every position that is neither a cast node nor above one reads type-exactly as in the input; get/set lemmas over dict keys of any type and list indices), C15_schema_cast_data (fold over rules in application order, selections on the original).",
          "Coq proofs (get_at / set_at algebra, divergence of distinct walk paths, fold invariants; model = spec) + correspondence on cast-dense documents"),
+ "C09": ("Theorems on the model of ConditionLike.from_spec running on lookup tables, constructor tables and class tables translated from the current source: C09_leaf (every typed leaf of the DSL, 7 classes x 32 constructors, in its spec spelling parses to exactly the condition the DSL builds), C09_tree (and/or/xor lists = DSL operators, nulls dropped), C09_any_case (any letter case, any argument), C09_alias_* (type/dtype, len/length, in/in_), C09_type_name (type names vs type objects), C09_positional_or_keyword. Known finding D12 (arguments under dtype forced through the type table) is reported as KNOWN-FINDING.",
+         "Coq proofs about the parser model (structural lemma parse_leaf_head + ~150 closed table facts) + correspondence of the parser on spelled DSL terms + direct == / behaviour oracle"),
+ "C17": ("Theorems C17_subst (for every condition tree, argument position and document, replacing data-path arguments by the values they resolve to leaves the filter result unchanged), C17_rule_verdict (same for Rule.test without casts), C17_unresolvable_fails (an argument whose resolution raises a caught class fails the item, never aborts), C17_resolution_caught (the classes path resolution raises are in the except clause translated from source).",
+         "Coq proofs on the model of per-evaluation argument resolution + correspondence + direct substitution oracle on the implementation + spec oracle (substituted rule)"),
+ "C19": ("Theorems C19_condition / C19_path / C19_part / C19_part_specs / C19_rule: for EVERY value given as a spec (no well-formedness assumed; nesting depth below the model's fuel) the model of each parser accepts or fails with Malformed*, TypeError or ValueError (rules: also KeyError, and C19_rule_keyerror_names_field shows only for a missing 'path' / 'condition'); AttributeError, IndexError, StopIteration, RuntimeError, OtherExc branches of the model are proved unreachable from five facts about the generated tables.",
+         "Coq proof by error-class analysis of the whole parser model (1500 lines) + correspondence on injected errors and arbitrary structural mutations (outcome class and parsed structure compared with the implementation)"),
 }
 
 def chk(pid):
